@@ -52,6 +52,10 @@ pub struct SingleCase {
     /// applied to an already finished bar ("for every prior history")
     #[serde(default)]
     prior_finish: Option<u8>,
+    /// after the terminator, before the handles are dropped: 1 reset_elapsed(), 2 reset_eta() - the bar
+    /// stays finished and dropping it still changes nothing
+    #[serde(default)]
+    touch_after: u8,
 }
 
 #[derive(Debug, Clone, Serialize, Deserialize)]
@@ -319,6 +323,16 @@ fn run_single(c: &SingleCase) -> CaseResult {
             v.nontrivial = exhausted || refinish;
             return Ok(v);
         }
+        // calls that concern the clock only leave the bar finished
+        if let Some(h) = &handle {
+            match c.touch_after % 3 {
+                1 => h.reset_elapsed(),
+                2 => h.reset_eta(),
+                _ => {}
+            }
+            ensure!(h.is_finished(), "not_finished", "{ctx}: after {} the bar is no longer finished", ["", "reset_elapsed()", "reset_eta()"][(c.touch_after % 3) as usize]);
+            v.label_if(c.touch_after % 3 != 0, "clock_reset_after_finish");
+        }
         // dropping the finished bar changes nothing on screen
         let n = vt.ncalls();
         drop(handle.take());
@@ -373,7 +387,7 @@ fn single_strategy(tier: Tier) -> BoxedStrategy<SingleCase> {
                 (proptest::option::weighted(0.3, prop_oneof![Just(Again::FinishUsingStyle), Just(Again::Drop), (0u8..5).prop_map(Again::IterExhaust)]), proptest::option::weighted(0.25, 0u8..5)),
             )
         })
-        .prop_map(|(rows, cols, len, tpl, hz, burn, prior, step_ms, term, (again, prior_finish))| SingleCase { rows, cols, len, tpl, hz, burn, prior, step_ms, term, again, prior_finish })
+        .prop_map(|(rows, cols, len, tpl, hz, burn, prior, step_ms, term, (again, prior_finish))| SingleCase { touch_after: (rows ^ cols ^ burn) % 5, rows, cols, len, tpl, hz, burn, prior, step_ms, term, again, prior_finish })
         .boxed()
 }
 
@@ -479,7 +493,7 @@ fn multi_strategy(tier: Tier) -> BoxedStrategy<MultiCase> {
                 pre.extend(std::iter::repeat(MOp::Tick(0)).take(22));
             }
             pre.append(&mut ops);
-            MultiCase { rows: 80, cols, hz, step_ms, ops: pre, final_drops }
+            MultiCase { rows: 80, cols: cols as u16, hz, step_ms, ops: pre, final_drops }
         })
         .boxed()
 }
@@ -499,10 +513,10 @@ pub fn property() -> Property {
                 name: "single",
                 rule: "standalone bar on a target with refresh rate None/1/20/255, 0 or 21-39 tick+inc pairs at the creation instant (exhausting the 20-frame and the 10-update buckets), 0-10 (thorough 24) prior ops with a clock step of 0/1/100 ms, then one terminator: finish/finish_with_message/finish_and_clear/abandon/abandon_with_message/finish_using_style x5/drop of the last handle x5 finish behaviours/iterator exhaustion (wrap_iter or progress_with) x5; the call must paint a frame showing the final state, is_finished/position/message must be final, a later drop makes no terminal call; non-trivial = the limiter was exhausted at the terminator",
                 strategy: single_strategy,
-                cases: |t| t.pick(5_000, 1_000_000),
+                cases: |t| t.pick(15_000, 1_000_000),
                 run: run_single,
                 signature: no_signature,
-                essential: &["limiter_exhausted_at_terminator", "limiter_not_exhausted", "explicit_call", "finish_using_style", "drop_last_handle", "iterator_exhausted", "iterator_exhausted_from_the_back", "iterator_exhausted_by_internal_iteration", "terminator_on_already_finished_bar", "clearing_variant", "second_completion_after_reset"],
+                essential: &["limiter_exhausted_at_terminator", "limiter_not_exhausted", "explicit_call", "finish_using_style", "drop_last_handle", "iterator_exhausted", "iterator_exhausted_from_the_back", "iterator_exhausted_by_internal_iteration", "terminator_on_already_finished_bar", "clock_reset_after_finish", "clearing_variant", "second_completion_after_reset"],
                 workers: w,
                 decode: None,
             }),
@@ -510,7 +524,7 @@ pub fn property() -> Property {
                 name: "multi",
                 rule: "MultiProgress (target None/1/20/255 Hz, clock step 0/1/200 ms, limiter exhausted by 22 ticks first) with add/insert_before/insert_after/tick/inc/set_message/finish*/abandon/drop only, then the remaining handles dropped in a generated order and the MultiProgress dropped; every finish/abandon/drop-of-unfinished must paint, every painted frame must match the list model, and at the end the screen must be exactly the final renderings of the visibly finished bars in visual order; non-trivial = a terminator right after a skipped draw, or finish order != visual order",
                 strategy: multi_strategy,
-                cases: |t| t.pick(3_000, 600_000),
+                cases: |t| t.pick(9_000, 600_000),
                 run: run_multi,
                 signature: no_signature,
                 essential: &["limiter_exhausted_at_terminator", "finish_order_differs_from_visual_order", "visible_final_renderings"],
